@@ -16,6 +16,13 @@ Theorem C16_no_alias_table : forallb site_ok alias_sites = true.
 Proof. exact no_view_escapes. Qed.
 Print Assumptions C16_no_alias_table.
 
+(* the table of every package-level variable of the package, regenerated on every run (Gen/Alias.v): each is an error
+   value, a read-only table, an unassigned scalar or the sync.Pool wrapper — no buffer or other mutable state is shared
+   by the Demuxers and Muxers of one process (the interleaving theorems below are about per-instance state only; this
+   is what entitles them to ignore everything else) *)
+Theorem C16_no_shared_globals : forall g, In g global_vars -> gv_class g <> GShared.
+Proof. exact no_shared_globals_forall. Qed.
+Print Assumptions C16_no_shared_globals.
 (* two demuxers whose calls are interleaved in ANY order (calls being the atomic steps) each return exactly what they
    return when run alone — for every stream, option set and schedule *)
 Theorem C16_demuxers_independent : forall P prs skip sched sa sb,
